@@ -10,7 +10,7 @@ def configs(tier, seed):
     for n, k in sizes:
         for model in ("knn", "uns"):
             for branch in ("pre", "fn"):
-                cfgs.append(dict(kind="predict", n=n, k=k, model=model, branch=branch, nq=2, batches=B2, wstride=37,
+                cfgs.append(dict(kind="predict", n=n, k=k, model=model, branch=branch, nq=2, batches=B2, wstride=1,
                                  weight=(n ** k) * 200, timeout_ms=60000))
     if tier == "thorough":
         for model in ("knn", "uns"):
@@ -18,7 +18,7 @@ def configs(tier, seed):
                              batches=[[0], [1, 1, 0], [1, 0, 1], [0]], weight=5000))
     for n in ([2, 3] if tier == "quick" else [2, 3, 4]):
         for branch in ("pre", "fn"):
-            cfgs.append(dict(kind="predict", n=n, k=1, model="sup", branch=branch, nq=2, batches=B2, wstride=37, weight=(n ** n) * 50))
+            cfgs.append(dict(kind="predict", n=n, k=1, model="sup", branch=branch, nq=2, batches=B2, wstride=1, weight=(n ** n) * 50))
     return cfgs
 
 
